@@ -32,8 +32,9 @@ META = {
     "technique": "Lean 4 proof over a regenerated dispatch table + differential correspondence + mutation-based exploration "
                  "of all parser entry points in watchdog-supervised child processes",
 }
-REQUIRED = ["dispatch_total_iff", "dispatch_total_partial", "dispatch_current", "detect_known_ext",
-            "dispatch_panic_characterisation"]
+REQUIRED = ["dispatch_total_iff", "dispatch_total_partial", "dispatch_total_partial_current", "current_verdict",
+            "cfgCurrent_checked", "detect_known_ext", "detect_unknown_iff", "dispatch_witness_pinned",
+            "dispatch_total_false_pinned", "dispatch_panic_characterisation", "dispatch_total_repaired"]
 
 EPS_ALL = ["syntax", "format", "parsewa", "parsewz", "loadwa", "loadwz", "wat", "nasm_la", "nasm_rv", "nasm_x64", "nasm_arm"]
 EPS_CHEAP = [e for e in EPS_ALL if not e.startswith("load")]
@@ -778,27 +779,39 @@ def key_of(rec):
 
 
 def make_batches(gen, ids, max_inputs=120, max_bytes=6 << 20):
-    batches, cur, curb = [], [], 0
+    """batches of (id, eps).  LoadProgramFile calls get batches (= processes) of their own: the loader registers
+    the runtime package's functions in the process-global universe of the type checker, which must not leak
+    into the stand-alone type-checker calls (checkwa/checkwz use their own importer)."""
+    items_cheap, items_load = [], []
     for i in ids:
-        inp = gen.inputs[i]
-        w = inp["size"] * len(inp["eps"]) + (400000 if any(e.startswith("load") for e in inp["eps"]) else 0)
-        if cur and (len(cur) >= max_inputs or curb + w > max_bytes):
+        eps = gen.inputs[i]["eps"]
+        c = [e for e in eps if not e.startswith("load")]
+        l = [e for e in eps if e.startswith("load")]
+        if c:
+            items_cheap.append((i, c))
+        if l:
+            items_load.append((i, l))
+    batches = []
+    for items, per_call in ((items_cheap, 0), (items_load, 400000)):
+        cur, curb = [], 0
+        for i, eps in items:
+            w = gen.inputs[i]["size"] * len(eps) + per_call
+            if cur and (len(cur) >= max_inputs or curb + w > max_bytes):
+                batches.append(cur)
+                cur, curb = [], 0
+            cur.append((i, eps))
+            curb += w
+        if cur:
             batches.append(cur)
-            cur, curb = [], 0
-        cur.append(i)
-        curb += w
-    if cur:
-        batches.append(cur)
     return batches
 
 
-def batch_lines(gen, ids):
-    return ["%s %s %s %s" % (i, ",".join(gen.inputs[i]["eps"]), hexs(gen.inputs[i]["name"]), gen.inputs[i]["spec"]) for i in ids]
+def batch_lines(gen, items):
+    return ["%s %s %s %s" % (i, ",".join(eps), hexs(gen.inputs[i]["name"]), gen.inputs[i]["spec"]) for i, eps in items]
 
 
 def explore(ctx, h, gen, ids, tag, workers=16, scale=1.0):
     batches = make_batches(gen, ids)
-    # big batches first (better packing)
     recs = []
     with cf.ThreadPoolExecutor(workers) as ex:
         futs = [ex.submit(run_batch, h, batch_lines(gen, b), ctx.tmp, "%s%d" % (tag, k), scale) for k, b in enumerate(batches)]
@@ -850,3 +863,404 @@ def minimise(h, workdir, tag, ep, name, data, key, budget=150, scale=1.0):
     # cheap first step for the size families: halve while it still fails
     small = ddmin(test, data, budget)
     return small
+
+
+# ------------------------------------------------------------------------------------------------ dispatch model (Gen + correspondence)
+
+LEAN_LANG = {"unknown": ".unknown", "wa": ".wa", "wz": ".wz", "wat": ".wat", "nasm": ".nasm"}
+LEAN_OUT = {"formatWa": ".formatWa", "formatWz": ".formatWz", "passThrough": ".passThrough", "error": ".error", "PANIC": ".PANIC"}
+
+
+def lean_chars(s):
+    def one(c):
+        if c == "'":
+            return "'\\''"
+        if c == "\\":
+            return "'\\\\'"
+        if not (32 <= ord(c) < 127):
+            raise vlib.InfraError("c08: non-printable character in a dispatch table key: %r" % s)
+        return "'%s'" % c
+    return "[" + ", ".join(one(c) for c in s) + "]"
+
+
+def regenerate(ctx):
+    """extract the dispatch data from the current source and (re)write Gen/C08.lean; returns the dict"""
+    gen_path = os.path.join(vlib.LEAN, "WaVerif", "Gen", "C08.lean")
+    rc, out = vlib.sh(["go", "run", os.path.join(vlib.VERIF, "extract", "c08_extract.go"), vlib.REPO],
+                      cwd=vlib.VERIF, env=vlib.GOENV, timeout=600)
+    if rc != 0:
+        ctx.proof["broken"].append({"theorem": "model regeneration C08 (extract/c08_extract.go)",
+                                    "why": "the extractor does not recognise the shape of xlang.DetectLang / format.File any more: " + out[-1500:]})
+        return None
+    d = json.loads(out[out.index("{"):])
+    for l in [e["lang"] for e in d["ext"] + d["suffix"] + d["fmt"]]:
+        if l not in LEAN_LANG:
+            ctx.proof["broken"].append({"theorem": "model regeneration C08", "why": "unknown LangType %r in the dispatch tables" % l})
+            return None
+    fmt = {e["lang"]: e["kind"] for e in d["fmt"]}
+    sound = all(fmt.get(l, d["fmtDefault"]) != "PANIC" for l in LEAN_LANG)
+    d["sound"] = sound
+    text = ("import WaVerif.Model.C08\n"
+            "/-! GENERATED by checks/c08.py from extract/c08_extract.go on every run — do not edit. -/\n"
+            "namespace WaVerif.C08\n\n"
+            "def cfgCurrent : Cfg :=\n"
+            "  { extTable := [%s],\n    suffixTable := [%s],\n    waOther := .%s,\n    fmtTable := [%s],\n    fmtDefault := %s }\n\n"
+            "/-- computed by the generator; checked by the kernel in Props/C08.lean -/\n"
+            "def cfgCurrentSound : Bool := %s\n\nend WaVerif.C08\n") % (
+        ", ".join("(%s, %s)" % (lean_chars(e["key"]), LEAN_LANG[e["lang"]]) for e in d["ext"]),
+        ", ".join("(%s, %s)" % (lean_chars(e["key"]), LEAN_LANG[e["lang"]]) for e in d["suffix"]),
+        d["waOther"],
+        ", ".join("(%s, %s)" % (LEAN_LANG[e["lang"]], LEAN_OUT[e["kind"]]) for e in d["fmt"]),
+        LEAN_OUT[d["fmtDefault"]], "true" if sound else "false")
+    old = open(gen_path).read() if os.path.exists(gen_path) else None
+    if old != text:                       # rewritten only when the content changes (keeps lake's build incremental);
+        if os.path.exists(gen_path):      # the content is ALWAYS recomputed from the source
+            os.remove(gen_path)
+        with open(gen_path, "w") as f:
+            f.write(text)
+    return d
+
+
+def dispatch_pairs(ctx, seeds):
+    """(name, content) pairs for the correspondence: every name class x every content class, plus seeds under
+    unknown names and random prefixes of seeds"""
+    rng = ctx.rng
+    pairs = [(n, c) for _, n in NAME_CLASSES for _, c in CONTENT_CLASSES]
+    unk = [b"u", b"u.txt", b"u.s", b"U.WS", b"u.wa.txt"]
+    k = 120 if ctx.tier == "quick" else 2000
+    for _ in range(k):
+        p = rng.choice(seeds.paths)
+        d = seeds.get(p)
+        if len(d) > 20000:
+            d = d[:rng.randrange(1, 20000)]
+        if rng.random() < 0.5 and d:
+            d = d[rng.randrange(len(d)):][:4000]          # start anywhere: first token of any class
+        pairs.append((rng.choice(unk + [os.path.basename(p).encode()]), d))
+    return pairs
+
+
+def dispatch_correspondence(ctx, h, model, pairs, cfg):
+    """real GetCodeSyntax / FormatCode vs the Lean model.  Returns stats; records broken correspondence;
+    evaluates the oracle (a panic of the real FormatCode is a violation whatever the model says)."""
+    ops = ["%s %s" % (hexs(n), hexs(c)) for n, c in pairs]
+    rc, out, err = ctx.run_bin(h, ["classify"], input_text="\n".join(ops) + "\n", timeout=1800)
+    impl = out.splitlines()
+    stats = {"pairs": len(pairs), "skipped_truncated": 0, "lang": {}, "fmt": {}, "panics": 0}
+    if len(impl) != len(ops):
+        ctx.proof["broken"].append({"theorem": "correspondence C08 dispatch", "why": "classify produced %d lines for %d ops (rc=%s): %s" % (len(impl), len(ops), rc, err[-500:])})
+        return stats
+    mops, idx = [], []
+    for i, l in enumerate(impl):
+        m = re.fullmatch(r"lang=(\S+) fmt=(\S+) wa=(\S+) na=(\S+) wt=(\S+)", l)
+        if not m:
+            # the classifier itself panicked (a scanner panic): that is a C08 violation of GetCodeSyntax
+            ctx.violation("panic:classify:" + l[:60], "GetCodeSyntax/FormatCode on name=%r content=%r: %s" % (pairs[i][0], show(pairs[i][1]), l),
+                          {"ep": "syntax", "name_hex": hexs(pairs[i][0]), "content_hex": hexs(pairs[i][1])})
+            continue
+        lang, fm, wa, na, wt = m.groups()
+        stats["lang"][lang] = stats["lang"].get(lang, 0) + 1
+        stats["fmt"][fm.split(":")[0]] = stats["fmt"].get(fm.split(":")[0], 0) + 1
+        if fm.startswith("X"):
+            stats["panics"] += 1       # reported by the exploration (stream "name"/"witness" runs the same pairs through FormatCode)
+        if "+" in wa + na + wt:
+            stats["skipped_truncated"] += 1
+            continue
+        mops.append("%s %s %s %s" % (hexs(pairs[i][0]), wa, na, wt))
+        idx.append(i)
+    if model is None:
+        return stats
+    rc, mout, merr = ctx.run_bin(model, input_text="\n".join(mops) + "\n", timeout=1800)
+    mo = mout.splitlines()
+    ctx.corr["lines"] += len(mops)
+    if len(mo) != len(mops):
+        ctx.proof["broken"].append({"theorem": "correspondence C08 dispatch", "why": "model driver produced %d lines for %d ops" % (len(mo), len(mops))})
+        return stats
+    ndiff = 0
+    for i, ml in zip(idx, mo):
+        m = re.fullmatch(r"lang=(\S+) fmt=(\S)", ml)
+        im = re.fullmatch(r"lang=(\S+) fmt=(\S+) .*", impl[i])
+        ok = bool(m) and m.group(1) == im.group(1)
+        if ok:
+            obs = im.group(2)
+            want = m.group(2)
+            if want == "X":
+                ok = obs.startswith("X")
+            elif want == "R":
+                ok = obs.startswith("R")
+            else:
+                ok = (not obs.startswith(("X", "R", "?"))) and want in obs
+        if not ok:
+            ndiff += 1
+            if ndiff <= 10:
+                ctx.proof["broken"].append({"theorem": "correspondence C08 dispatch model vs xlang.DetectLang/format.File",
+                                            "why": "name=%r content=%r: impl %r, model %r" % (pairs[i][0], show(pairs[i][1], 60), impl[i][:200], ml)})
+    ctx.corr["diffs"] += ndiff
+    stats["compared"] = len(mops)
+    return stats
+
+
+# ------------------------------------------------------------------------------------------------ the check
+
+STAGE = {"syntax": "scan", "parsewa": "parse", "parsewz": "parse", "checkwa": "check", "checkwz": "check", "format": "format",
+         "loadwa": "load", "loadwz": "load"}
+HANG_MAX_SIZE = 16384      # a time-out on an input up to this size is keyed "hang", above it "slow" (super-linear)
+
+
+def timeout_key(rec, size):
+    _, ep, _, _, _, detail = rec
+    d = detail.split()
+    if d and d[0] in ("synok", "synerr"):
+        d = d[1:]
+    cls = "hang" if size <= HANG_MAX_SIZE else "slow"
+    return "%s:%s:%s" % (cls, ep, pkg_of(d[0] if d else "?"))
+
+
+def record_key(rec, size):
+    return timeout_key(rec, size) if rec[2] == "timeout" else key_of(rec)
+
+
+def fold_timeouts(recs):
+    """a time-out of a later stage on an input on which an earlier stage (scan < parse < check/format/load)
+    already timed out has the same cause: keep only the earliest stage's record per input"""
+    by_input = {}
+    for r in recs:
+        if r[2] == "timeout":
+            by_input.setdefault(r[0], []).append(r)
+    drop = set()
+    order = {"scan": 0, "parse": 1, "check": 2, "format": 2, "load": 2}
+    for i, rs in by_input.items():
+        st = [order.get(STAGE.get(r[1], ""), 9) for r in rs]
+        m = min(st)
+        if m < 2:
+            for r, s in zip(rs, st):
+                if s > m and s != 9:
+                    drop.add((r[0], r[1]))
+    return [r for r in recs if not (r[2] == "timeout" and (r[0], r[1]) in drop)], len(drop)
+
+
+def load_corpus():
+    d = os.path.join(vlib.VERIF, "corpus", PROP)
+    out = []
+    if os.path.isdir(d):
+        for f in sorted(os.listdir(d)):
+            if f.endswith(".json"):
+                c = json.load(open(os.path.join(d, f)))
+                c["file"] = f
+                out.append(c)
+    return out
+
+
+def corpus_content(c):
+    if "content_hex" in c:
+        return content_of(c["content_hex"])
+    g = c["gen"]
+    return deep_family(g["lang"], g["family"], g["size"])
+
+
+def run(ctx):
+    t0 = time.time()
+    h = ctx.build_harness("c08")
+    cfg = regenerate(ctx)
+    ctx.prove(required=REQUIRED)
+    model = ctx.build_model("c08")
+    seeds = Seeds()
+    quick = ctx.tier == "quick"
+    timing = {"build+prove_s": round(time.time() - t0, 1)}
+
+    # ---- 0. probe: an entry point that hangs / dies on trivial inputs is excluded from the mass streams
+    #         (it would cost one full time limit per input); the probe itself reports the violation
+    gen = Gen(ctx, seeds)
+    trivial = [b"", b"x", b"1\n", b"# c\n\n"]
+    for k, c in enumerate(trivial):
+        gen.add("probe", "wa", b"c08.txt", hexs(c), len(c), ALL_EPS, "trivial input %r" % c)
+    probe_ids = list(gen.order)
+    recs = explore(ctx, h, gen, probe_ids, "probe", workers=4)
+    badcount = {}
+    for r in recs:
+        if r[2] in ("timeout", "exit", "fatal", "signal"):
+            badcount[r[1]] = badcount.get(r[1], 0) + 1
+    excluded = sorted(e for e, n in badcount.items() if n >= 2)
+    gen.skip = set(excluded)
+    if excluded:
+        ctx.notes.append("entry points excluded from the mass streams because they hang/die on trivial inputs: %s" % excluded)
+
+    # ---- 1. corpus (minimised past failures), replayed first
+    corpus = load_corpus()
+    for c in corpus:
+        data = corpus_content(c)
+        gen.add("corpus", c.get("lang", "wa"), bytes.fromhex(c.get("name_hex", "")) if c.get("name_hex", "-") != "-" else b"",
+                hexs(data), len(data), c["eps"], "corpus/%s (%s)" % (c["file"], c.get("key", "")))
+    # the Lean witnesses (dispatch_witness_pinned, dispatch_witness_pinned_empty) replayed on the real code
+    gen.add("witness", "wa", b"x.txt", hexs(b"1"), 1, ["syntax", "format"], "witness FormatCode(\"x.txt\", \"1\")")
+    gen.add("witness", "wa", b"x", "-", 0, ["syntax", "format"], "witness FormatCode(\"x\", \"\")")
+    # ---- 2. streams
+    if quick:
+        gen.stream_seeds(load_every=8)
+        gen.stream_names()
+        gen.stream_token_mut(2200, 0.08)
+        gen.stream_byte_mut(1400, 0.06)
+        gen.stream_trunc(3, 0.03)
+        gen.stream_deep([500, 2000], load_max=500)
+    else:
+        gen.stream_seeds(load_every=1)
+        gen.stream_names()
+        gen.stream_token_mut(40000, 0.05)
+        gen.stream_byte_mut(25000, 0.05)
+        gen.stream_trunc(None, 0.004)
+        gen.stream_deep([500, 2000, 10000, 100000], load_max=2000)
+    ids = [i for i in gen.order if i not in set(probe_ids)]
+    t1 = time.time()
+    recs += explore(ctx, h, gen, ids, "x")
+    timing["explore_s"] = round(time.time() - t1, 1)
+    timing["explore_cpu_s"] = round(sum(r[3] for r in recs) / 1e6, 1)
+
+    # ---- 3. dispatch correspondence + witness replay
+    t2 = time.time()
+    pairs = dispatch_pairs(ctx, seeds)
+    pairs.insert(0, (b"x.txt", b"1"))             # the theorem's witness (dispatch_witness_pinned)
+    pairs.insert(1, (b"x", b""))                   # dispatch_witness_pinned_empty
+    dstats = dispatch_correspondence(ctx, h, model, pairs, cfg) if cfg is not None else {}
+    timing["dispatch_s"] = round(time.time() - t2, 1)
+    if cfg is not None and model is not None:
+        # the model's verdict for the witness must be what the generator claimed (PANIC iff not sound)
+        rc, mo, _ = ctx.run_bin(model, input_text="782e747874 OE OE OE\n")
+        want = "lang=unknown fmt=" + ("X" if not cfg["sound"] else {"error": "R", "passThrough": "P", "formatWa": "A", "formatWz": "Z"}[cfg["fmtDefault"]])
+        if mo.strip() != want:
+            ctx.proof["broken"].append({"theorem": "witness replay C08", "why": "model says %r for FormatCode(\"x.txt\",\"1\"), expected %r" % (mo.strip(), want)})
+
+    # ---- 4. oracle: every panic / exit / fatal error / time-out is a violation, keyed by root cause
+    recs, folded = fold_timeouts(recs)
+    dist, errkinds, bykey = {}, {}, {}
+    for r in recs:
+        i, ep, outcome, us, lim, detail = r
+        dist.setdefault(ep, {})
+        dist[ep][outcome] = dist[ep].get(outcome, 0) + 1
+        if outcome == "err":
+            dd = detail.split()
+            kind = dd[1] if (dd and dd[0] in ("synok", "synerr") and len(dd) > 1) else (dd[0] if dd else "-")
+            errkinds.setdefault(ep, {})
+            errkinds[ep][kind] = errkinds[ep].get(kind, 0) + 1
+        if outcome in BAD:
+            bykey.setdefault(record_key(r, gen.inputs[i]["size"]), []).append(r)
+    known_keys = [k for k in ctx.known]
+
+    def is_known(key):
+        return any(k["key"] == key or (k.get("key_regex") and re.fullmatch(k["key_regex"], key)) for k in known_keys)
+
+    findings = []
+    todo = []
+    for key, rs in sorted(bykey.items()):
+        rs.sort(key=lambda r: (gen.inputs[r[0]]["size"], r[0]))
+        r = rs[0]
+        inp = gen.inputs[r[0]]
+        info = {"key": key, "count": len(rs), "eps": sorted({x[1] for x in rs}), "streams": sorted({gen.inputs[x[0]]["stream"] for x in rs}),
+                "example": {"id": r[0], "ep": r[1], "desc": inp["desc"], "size": inp["size"], "detail": r[5]}}
+        findings.append(info)
+        if is_known(key):
+            data = content_of(inp["spec"]) if inp["size"] <= 65536 else None
+            ctx.violation(key, "", {"ep": r[1], "name_hex": hexs(inp["name"]), "desc": inp["desc"], "size": inp["size"],
+                                    "content_hex": hexs(data) if data is not None else None, "detail": r[5]})
+        else:
+            todo.append((key, r, inp, info))
+
+    # unknown keys: confirm alone, minimise (delta debugging on bytes), report
+    def handle(a):
+        key, r, inp, info = a
+        data = content_of(inp["spec"])
+        ep = r[1]
+        budget = 25 if r[2] == "timeout" else 120
+        # confirmation + minimisation use the same predicate: same key when run alone
+        def same_key(d):
+            rr = run_single(h, ["m", ep, hexs(inp["name"]), hexs(d)], ep, ctx.tmp, "min_%s_%s" % (r[0], ep))
+            return rr[2] in BAD and record_key(rr, inp["size"]) == key
+        if not same_key(data):
+            return key, None, info
+        if len(data) <= 400000:
+            data = ddmin(same_key, data, budget)
+        return key, data, info
+
+    if todo:
+        with cf.ThreadPoolExecutor(8) as ex:
+            for key, small, info in ex.map(handle, todo[:40]):
+                r_ep = info["example"]["ep"]
+                inp = gen.inputs[info["example"]["id"]]
+                if small is None:
+                    if key.startswith(("hang:", "slow:")):
+                        ctx.notes.append("unconfirmed time-out (not reproduced when run alone, not reported): %s on %s" % (key, info["example"]["desc"]))
+                        info["unconfirmed"] = True
+                        continue
+                    small = content_of(inp["spec"])
+                    key = key + ":batch-dependent"
+                info["minimised_size"] = len(small)
+                what = "%s on entry point(s) %s: %s; input (%d bytes, minimised from %s; file name %r): %s" % (
+                    key.split(":")[0], ",".join(info["eps"]), info["example"]["detail"], len(small), info["example"]["desc"],
+                    inp["name"].decode("utf-8", "replace"), show(small, 300))
+                ctx.violation(key, what, {"ep": r_ep, "name_hex": hexs(inp["name"]), "content_hex": hexs(small) if len(small) <= 200000 else None,
+                                          "size": len(small), "desc": info["example"]["desc"], "detail": info["example"]["detail"]})
+
+    # ---- 5. scaling of the size families (evidence; the time limit is what decides)
+    scaling = []
+    fam = {}
+    for r in recs:
+        inp = gen.inputs[r[0]]
+        if inp["stream"] == "deep" and r[2] in ("ok", "err"):
+            m = re.match(r"family (\S+) size (\d+)", inp["desc"])
+            fam.setdefault((m.group(1), r[1]), {})[int(m.group(2))] = r[3]
+    import math
+    for (f, ep), ts in fam.items():
+        ks = sorted(ts)
+        if len(ks) >= 2 and ts[ks[0]] >= 5000 and ts[ks[-1]] > ts[ks[0]]:
+            e = math.log(ts[ks[-1]] / ts[ks[0]]) / math.log(ks[-1] / ks[0])
+            scaling.append({"family": f, "ep": ep, "sizes": ks, "cpu_us": [ts[k] for k in ks], "exponent": round(e, 2)})
+    scaling.sort(key=lambda s: -s["exponent"])
+
+    # ---- evidence
+    nontrivial = set()
+    behaviours = set()
+    seed_specs = {gen.inputs[i]["spec"] for i in gen.order if gen.inputs[i]["stream"] == "seed"}
+    for r in recs:
+        inp = gen.inputs[r[0]]
+        behaviours.add((r[1], r[2], r[5].split()[-1] if r[2] != "ok" else "-"))
+        if r[2] != "ok" and inp["spec"] not in seed_specs:
+            nontrivial.add(r[0])
+    streams = {}
+    for i in gen.order:
+        s = gen.inputs[i]["stream"]
+        streams[s] = streams.get(s, 0) + 1
+    samples = []
+    for s in ("tok", "byte", "trunc", "name", "deep"):
+        ex = [i for i in gen.order if gen.inputs[i]["stream"] == s][:2]
+        for i in ex:
+            samples.append({"id": i, "desc": gen.inputs[i]["desc"], "size": gen.inputs[i]["size"],
+                            "outcomes": {r[1]: r[2] for r in recs if r[0] == i}})
+    cov = {
+        "evaluations": len(recs) + dstats.get("pairs", 0),
+        "distinct_nontrivial": len(nontrivial),
+        "rule": "evaluations = (input, entry point) calls of the exploration + (name, content) pairs of the dispatch correspondence; "
+                "distinct_nontrivial = distinct generated inputs (not byte-identical to a repository file) on which at least one entry point "
+                "left the success path (error / panic / exit / time-out), i.e. inputs that really drive error handling; "
+                "distinct_behaviours = distinct (entry point, outcome, error kind or site) triples observed",
+        "distinct_behaviours": len(behaviours),
+        "inputs_per_stream": streams,
+        "samples": samples,
+        "distribution": {ep: dict(sorted(d.items())) for ep, d in sorted(dist.items())},
+        "error_kinds_top": {ep: dict(sorted(k.items(), key=lambda kv: -kv[1])[:8]) for ep, k in sorted(errkinds.items())},
+        "error_kinds_distinct": {ep: len(k) for ep, k in sorted(errkinds.items())},
+        "findings": findings,
+        "timeouts_folded_into_earlier_stage": folded,
+        "excluded_entry_points": excluded,
+        "dispatch": dstats,
+        "dispatch_tables": cfg,
+        "scaling_top": scaling[:15],
+        "time_limit": "CPU time of the child process during the call: 2 s + 20 ms/KiB (LoadProgramFile: 8 s + 60 ms/KiB); wall-clock fallback 25x; memory: RLIMIT_AS %d GiB, GOMEMLIMIT %s" % (MEM_LIMIT >> 30, GOMEMLIMIT),
+        "timing": timing,
+        "seeds": {k: len(v) for k, v in seeds.by_lang.items()},
+    }
+    return ctx.finish("exploration", cov,
+                      assumptions=["the parsers, scanners and the type checker are NOT modelled; absence of crashes/hangs there is explored on generated inputs, not proved",
+                                   "'time bounded by the input size' is read as: CPU time <= 2 s + 20 ms per KiB of input (8 s + 60 ms/KiB for LoadProgramFile)",
+                                   "file names are byte strings; strings.ToLower is modelled as ASCII lower-casing (exact for the ASCII table keys, which contain no 'k'/'i' that a non-ASCII rune could lower to); path separator '/'",
+                                   "the type checker is also run on the partial AST of files with syntax errors (entry points checkwa/checkwz), as internal/lsp/loaderx does"],
+                      trusted_base=["extract/c08_extract.go (go/ast reading of DetectLang's tables and format.File's switch) -> Gen/C08.lean",
+                                    "harness/c08 token classifier (same predicates as DetectLang) and watchdog; hook harness/hooks/internal__format/c08_wz.go",
+                                    "hand-written Lean model of the DetectLang loops (Model/C08.lean) tied by the correspondence run"])
